@@ -207,6 +207,9 @@ func leanTypeM(t types.Type) (string, error) {
 	if lt, ok := k19Type(t); ok { // ext_k19.go: float64 / []float64 of a number-polymorphic kernel (kind funcn)
 		return lt, nil
 	}
+	if lt, ok := k01decType(t); ok { // wp k01dec (ext_k01dec.go): object types of the QR decoder
+		return lt, nil
+	}
 	switch u := t.Underlying().(type) {
 	case *types.Basic:
 		if u.Info()&types.IsString != 0 {
@@ -482,6 +485,9 @@ func (fc *fnCtx) mexpr(ex ast.Expr) (string, bool, error) {
 		return s, true, err
 	}
 	if s, handled, err := fc.dmxMexpr(ex); handled { // wp dmmirror (ext_dmmirror.go)
+		return s, true, err
+	}
+	if s, handled, err := fc.k01decMexpr(ex); handled { // wp k01dec (ext_k01dec.go)
 		return s, true, err
 	}
 	switch x := ex.(type) {
@@ -1199,6 +1205,9 @@ func (fc *fnCtx) mblock(stmts []ast.Stmt, lvl int) (string, error) {
 	if text, handled, err := fc.extStmt(s, rest, lvl); handled { // ext_k17k20.go
 		return text, err
 	}
+	if text, handled, err := fc.k01decStmt(s, rest, lvl); handled { // wp k01dec (ext_k01dec.go)
+		return text, err
+	}
 	switch x := s.(type) {
 	case *scopeEnd:
 		for _, n := range x.names {
@@ -1214,6 +1223,13 @@ func (fc *fnCtx) mblock(stmts []ast.Stmt, lvl int) (string, error) {
 		var rs []string
 		for ri, r := range x.Results {
 			if vals, handled, err := fc.dmxReturnVals(ri, r); handled { // wp dmmirror: flattened []struct result
+				if err != nil {
+					return "", err
+				}
+				rs = append(rs, vals...)
+				continue
+			}
+			if vals, handled, err := fc.k01decReturn(x, ri, r); handled { // wp k01dec: object-typed results
 				if err != nil {
 					return "", err
 				}
@@ -2275,6 +2291,7 @@ func assignedIn3(stmts []ast.Stmt) (assigned, declared, whole map[string]bool) {
 				}
 			case *ast.CallExpr:
 				extAssignedByCall(x, assigned, whole) // ext_k17k20.go
+				k01decAssignedByCall(x, assigned, whole) // wp k01dec
 				if curFC != nil {
 					if recv, mi, ok := curFC.methodCallee(x); ok {
 						for _, f := range mi.outs {
@@ -2929,6 +2946,9 @@ func (fc *fnCtx) mcallStmt(call *ast.CallExpr, lvl int) (string, bool, error) {
 }
 
 func (fc *fnCtx) mrange(x *ast.RangeStmt, rest []ast.Stmt, lvl int) (string, error) {
+	if s, handled, err := fc.k01decRange(x, rest, lvl); handled { // wp k01dec: package-level table of integer rows
+		return s, err
+	}
 	if x.Tok != token.DEFINE && (x.Key != nil || x.Value != nil) {
 		return "", fmt.Errorf("range with assignment")
 	}
